@@ -70,10 +70,23 @@ def generate(specs, nproc=14):
         return pool.map(_shard, shards)
 
 
+def _retry(fn, tries=3):
+    """A JVM killed from outside (SIGKILL by the kernel's OOM killer on a crowded machine) is retried; anything else is
+    a machinery failure at once."""
+    for k in range(tries):
+        try:
+            return fn()
+        except common.Machinery as e:
+            if 'rc=-9' not in str(e) or k == tries - 1:
+                raise
+            import time
+            time.sleep(5 * (k + 1))
+
+
 def validate_all(ctx, results):
     def one(bs):
         b, s = bs
-        return b, s, ctx.validate(b, module='TokenTrace', heap='3g')
+        return b, s, _retry(lambda: ctx.validate(b, module='TokenTrace', heap='3g'))
     with cf.ThreadPoolExecutor(max_workers=min(6, len(results))) as ex:
         return list(ex.map(one, results))
 
@@ -137,10 +150,10 @@ def run(ctx):
                         'f-string internals and raw mode excluded',
                         'comments the trivia option selects may be removed or kept (the property only forbids losing '
                         'unselected ones); post-stream own-token flags come from ast.parse of the post source']
-    ctx.model('TokenMC', 'TokenMC' if ctx.quick else 'TokenMC_thorough',
+    _retry(lambda: ctx.model('TokenMC', 'TokenMC' if ctx.quick else 'TokenMC_thorough',
               required=('DoDelete', 'DoReplace', 'DoInsert', 'DropFarComment', 'DropNearComment', 'DupComment',
                         'DropLineComment', 'ReindentFarLine', 'SwapFarStatements', 'DropFarBlank', 'DropNearBlank',
-                        'GlueComment'), heap='3g')
+                        'GlueComment'), heap='3g'))
     n_hist, n_steps = (300, 8) if ctx.quick else (3600, 10)
     specs = history_specs(ctx, n_hist, n_steps)
     res = generate(specs)
